@@ -46,7 +46,7 @@ func (g *SimpleGen) Definition(depth int) *SimpleDef {
 			d.MaxLength = i64(int64(g.R.Range(0, 6)))
 		}
 		if g.R.P(0.3) {
-			d.Pattern = Patterns[g.R.Intn(len(Patterns))].P
+			d.Pattern = pickPatternP(g.R, 0.6, 1500) // simple schemas carry few patterns: most of them distinct
 		}
 		if g.R.P(0.25) {
 			d.Format = Formats[g.R.Intn(len(Formats))].Name
